@@ -5,7 +5,7 @@ import json
 import os
 
 from lib import vlib
-from gen.c06_watgen import gen_module
+from gen.c06_watgen import gen_module, import_matrix
 
 PROP = "C06"
 META = {
@@ -156,11 +156,16 @@ def classify(item, o):
     # --- parse . pass . print
     st = o.get("strip", "")
     if st != "ok" and not kept.startswith("PANIC"):
-        key = "printer:unnamed-func-panic" if "unnamed-func" in flags else "strip:" + st.split(":")[0]
+        if "import-table" in flags and "TODO" in st:
+            key = "printer:table-import-todo"
+        else:
+            key = "printer:unnamed-func-panic" if "unnamed-func" in flags else "strip:" + st.split(":")[0]
         causes.append((key, what0 + "WatStrip fails after the pass succeeded: %s" % st[:120]))
     for t in o.get("text") or []:
         if t == "start":
             causes.append(("printer:start-dropped", what0 + "the text WatStrip returns has no start function (input has one)"))
+        elif t.startswith("pass-changed-"):
+            causes.append(("pass:changed-" + t[13:], what0 + "DoPass changed a part of the module that is not a function or function import: %s (memory/global/table imports, start, exports, elem, memory, table, globals, data, types must come out as they went in)" % t[13:]))
         elif t == "func-exports":
             causes.append(("printer:noninline-func-export-dropped", what0 + "function exports written as (export \"n\" (func $f)) are missing from the text WatStrip returns"))
         else:
@@ -239,6 +244,15 @@ def run(ctx):
                 items.append({"label": "wa:generated-%d" % k, "stream": "compiler", "op": "wa %s %d" % (fn, 5), "batch": False})
         except Exception as e:        # the shared generator is optional
             ctx.notes.append("gen.progs unavailable: %r" % (e,))
+        # deterministic matrix: imports of every kind (func/memory/global[/table]), named and unnamed, live and
+        # dead, in all orders, with and without unnamed defined functions; run next to provider modules
+        for lab, wat in import_matrix(False):
+            items.append({"label": "imports/" + lab, "stream": "imports", "wat": wat,
+                          "op": "hex %s %d" % (wat.encode().hex(), 3), "batch": True})
+        tm = import_matrix(True)
+        for lab, wat in tm[::max(1, len(tm) // (12 if quick else 60))]:
+            items.append({"label": "table_import/" + lab, "stream": "table_import", "wat": wat,
+                          "op": "hex %s %d" % (wat.encode().hex(), 3), "batch": True})
         # generated modules
         total = 420 if quick else 9000
         for label, feats, share in STREAMS:
